@@ -83,6 +83,12 @@ type Sim struct {
 	pools    map[*sync.Pool][]any
 	schedSig uint64
 	switches int
+	// targeted preemption: in some runs one yield site (the hotK-th distinct site
+	// met while preemption is on) switches tasks half of the time, so that narrow
+	// windows at one particular place are hit even when the rest of the run is calm
+	hotInit bool
+	hotK    int
+	siteIdx map[uint32]int
 
 	logHash  uint64
 	Log      []string
@@ -285,7 +291,28 @@ func (s *Sim) yieldLocked(t *Task, site uint32) {
 		s.parkLocked(t, stParked)
 		return
 	}
-	if s.Tape.Chance(s.cfg.PreemptPermille) {
+	p := s.cfg.PreemptPermille
+	if p > 0 {
+		if !s.hotInit {
+			s.hotInit = true
+			s.hotK = -1
+			s.siteIdx = map[uint32]int{}
+			if s.Tape.Chance(400) {
+				s.hotK = s.Tape.Draw(64)
+			}
+		}
+		if s.hotK >= 0 {
+			idx, ok := s.siteIdx[site]
+			if !ok {
+				idx = len(s.siteIdx)
+				s.siteIdx[site] = idx
+			}
+			if idx == s.hotK {
+				p = 500
+			}
+		}
+	}
+	if s.Tape.Chance(p) {
 		s.switches++
 		s.sig(uint64(t.ID), uint64(site))
 		t.resumed = false
